@@ -67,6 +67,7 @@ for floats they are idealisations (as every law bundle here that mentions arithm
 -/
 import Kodama.Lemmas.NaturalitySafe
 import Kodama.Lemmas.AverageClamp
+import Kodama.Lemmas.WardClamp
 namespace Kodama
 variable {α : Type} [Num α]
 
@@ -95,7 +96,9 @@ theorem C09_formulas {s : α → α} (L : ScaleLaws s) (m : Method) : UpdHom m s
   · intro a b
     simp only [Gen.weighted, ← L.add, ← L.mul_left]
   · intro a b d sa sb sx
-    simp only [Gen.ward, ← L.add, ← L.sub, ← L.mul_left, ← L.div]
+    -- the quotient commutes with `s` (arithmetic laws); guard and clamp only compare and select
+    refine Gen.ward_hom L.ord.lt a b d sa sb sx ?_
+    simp only [Gen.wardValue, ← L.add, ← L.sub, ← L.mul_left, ← L.div]
   · intro a b d sa sb
     simp only [Gen.centroid, ← L.add, ← L.sub, ← L.mul_left, ← L.div]
   · intro a b d
@@ -232,7 +235,7 @@ theorem C09_no_constants (I J : Num α) (hlt : I.lt = J.lt) (hadd : I.add = J.ad
   · funext a b; simp only [Gen.complete, hlt]
   · funext a b sa sb; simp only [Gen.average, hlt, hadd, hmul, hdiv, hofNat]
   · funext a b; simp only [Gen.weighted, hadd, hmul, hhalf]
-  · funext a b d sa sb sx; simp only [Gen.ward, hadd, hsub, hmul, hdiv, hofNat]
+  · funext a b d sa sb sx; simp only [Gen.ward, hlt, hadd, hsub, hmul, hdiv, hofNat]
   · funext a b d sa sb; simp only [Gen.centroid, hadd, hsub, hmul, hdiv, hofNat]
   · funext a b d; simp only [Gen.median, hadd, hsub, hmul, hhalf, hquarter]
 
